@@ -184,7 +184,7 @@ End Generic.
    class (which includes every string <-> other-type change): EXEC returns nil and applies nothing
    iff the value of some watched key at EXEC differs from its value at WATCH. *)
 Theorem C05_watch_iff_changed_strings :
-  forall (y : sys (list (list N * mval)) mcmd) (ks : list (list N)) (vw vm ve : resp)
+  forall (y : sys mstate mcmd) (ks : list (list N)) (vw vm ve : resp)
          (sched1 sched2 : list (bool * resp)),
   txa _ _ y = tx_idle mcmd ->
   mdecode vw = inl (CWatch ks) -> mdecode vm = inl CMulti -> mdecode ve = inl CExec ->
@@ -206,9 +206,9 @@ Proof. exact mini_watch_iff_changed. Qed.
    A WATCHes k; B pushes to k; A: MULTI, SET j 1, EXEC.  The value of k differs between WATCH and
    EXEC (it holds a list at both instants), yet EXEC answers [OK] and j is set. *)
 Theorem C05_watch_nonstring_refuted :
-  let sW := sst _ _ (mrun2 (msys_init []) (firstn 2 refute_sched)) in
-  let sE := sst _ _ (mrun2 (msys_init []) (firstn 5 refute_sched)) in
-  let yF := mrun2 (msys_init []) refute_sched in
+  let sW := sst _ _ (mrun2 (msys_init m0) (firstn 2 refute_sched)) in
+  let sE := sst _ _ (mrun2 (msys_init m0) (firstn 5 refute_sched)) in
+  let yF := mrun2 (msys_init m0) refute_sched in
   nonstring_at_both sW sE (b_ "k") = true /\
   value_of sE (b_ "k") <> value_of sW (b_ "k") /\
   last (outa _ _ yF) RNilArr = RArr [RSimple (str "OK")] /\
@@ -216,7 +216,7 @@ Theorem C05_watch_nonstring_refuted :
 Proof. exact watch_nonstring_refuted_witness. Qed.
 
 (* the hypotheses are satisfiable: GET of the mini backend is read-only; a concrete transaction *)
-Theorem C05_mini_get_read_only : forall (s : list (list N * mval)) (k : list N), fst (mexec s (CGet k)) = s.
+Theorem C05_mini_get_read_only : forall (s : mstate) (k : list N), fst (mexec s (CGet k)) = s.
 Proof. exact mexec_get_read_only. Qed.
 
 Print Assumptions C05_queued_no_effect.
@@ -240,8 +240,8 @@ Example C05_nonvacuous :
   let A (l : list string) := (true, frame (map str l)) in
   let B (l : list string) := (false, frame (map str l)) in
   let body := [A ["MULTI"]; A ["INCR"; "n"]; A ["LPUSH"; "n"; "a"]; A ["SET"; "j"; "1"]; A ["EXEC"]] in
-  let y1 := mrun2 (msys_init []) (app [A ["WATCH"; "k"]; B ["SET"; "k"; "x"]] body) in
-  let y2 := mrun2 (msys_init []) (app [A ["WATCH"; "k"]; B ["GET"; "k"]] body) in
+  let y1 := mrun2 (msys_init m0) (app [A ["WATCH"; "k"]; B ["SET"; "k"; "x"]] body) in
+  let y2 := mrun2 (msys_init m0) (app [A ["WATCH"; "k"]; B ["GET"; "k"]] body) in
   last (outa _ _ y1) R_OK = RNilArr /\ value_of (sst _ _ y1) (str "j") = None /\
   last (outa _ _ y2) R_OK = RArr [RInt 1; WRONGTYPE; RSimple (str "OK")] /\
   value_of (sst _ _ y2) (str "j") = Some (VStr (str "1")).
@@ -254,9 +254,9 @@ Example C05_first_watch_decides :
   let A (l : list string) := (true, frame (map str l)) in
   let B (l : list string) := (false, frame (map str l)) in
   let tail := [A ["MULTI"]; A ["SET"; "j"; "1"]; A ["EXEC"]] in
-  let y1 := mrun2 (msys_init []) (app [B ["SET"; "k"; "a"]; A ["WATCH"; "k"]; B ["SET"; "k"; "b"]; A ["WATCH"; "k"]] tail) in
-  let y2 := mrun2 (msys_init []) (app [B ["SET"; "k"; "a"]; A ["WATCH"; "k"]; B ["SET"; "k"; "b"]; A ["WATCH"; "h"; "k"; "k"]] tail) in
-  let y3 := mrun2 (msys_init []) (app [B ["SET"; "k"; "a"]; A ["WATCH"; "k"]; A ["UNWATCH"]; B ["SET"; "k"; "b"]; A ["WATCH"; "k"]] tail) in
+  let y1 := mrun2 (msys_init m0) (app [B ["SET"; "k"; "a"]; A ["WATCH"; "k"]; B ["SET"; "k"; "b"]; A ["WATCH"; "k"]] tail) in
+  let y2 := mrun2 (msys_init m0) (app [B ["SET"; "k"; "a"]; A ["WATCH"; "k"]; B ["SET"; "k"; "b"]; A ["WATCH"; "h"; "k"; "k"]] tail) in
+  let y3 := mrun2 (msys_init m0) (app [B ["SET"; "k"; "a"]; A ["WATCH"; "k"]; A ["UNWATCH"]; B ["SET"; "k"; "b"]; A ["WATCH"; "k"]] tail) in
   last (outa _ _ y1) R_OK = RNilArr /\ value_of (sst _ _ y1) (str "j") = None /\
   last (outa _ _ y2) R_OK = RNilArr /\ value_of (sst _ _ y2) (str "j") = None /\
   last (outa _ _ y3) R_OK = RArr [RSimple (str "OK")] /\ value_of (sst _ _ y3) (str "j") = Some (VStr (str "1")).
